@@ -271,6 +271,54 @@ fn run_singletons_pairs(cx: &mut CaseCx, case: &Value) {
   }
 }
 
+
+/// keys are plain values: created and recorded on one thread, used on another, several keys per thread
+fn run_threads(cx: &mut CaseCx, _case: &Value) {
+  // thread A creates three keys in a row and records their values there
+  cx.entropy(77);
+  let keys: Vec<(GGM, Vec<Option<[u8; 32]>>)> = (0..3).map(|_| {
+    let g = GGM::setup();
+    let b = eval_all(&g);
+    (g, b)
+  }).collect();
+  for (i, (g, baseline)) in keys.iter().enumerate() {
+    if !check_baseline(cx, baseline) {
+      return;
+    }
+    // ... each key is then used on a fresh thread (which has seen no other key), and on a thread that
+    // handled another key first
+    for (who, first) in [("a fresh thread", None), ("a thread that handled another key first", Some(&keys[(i + 1) % 3].0))] {
+      let mut sc = cx.scratch();
+      std::thread::scope(|s| {
+        s.spawn(|| {
+          if let Some(other) = first {
+            let _ = eval_all(other);
+          }
+          let mut g2 = g.clone();
+          check_state(&mut sc, &g2, &[], baseline, false);
+          let mut path = vec![];
+          for x in [0u8, 0x80, 0x40, 3, 255, 254] {
+            if g2.puncture(&[x]).is_ok() {
+              path.push(x);
+              check_state(&mut sc, &g2, &path, baseline, false);
+            }
+          }
+        });
+      });
+      for v in sc.viols.iter_mut() {
+        v.what = format!("key #{} created and recorded on one thread, then used on {}: {}", i, who, v.what);
+        v.key = format!("C10/across-threads/{}", v.key.trim_start_matches("C10/"));
+      }
+      cx.absorb(sc);
+      cx.count("states", 7);
+      cx.count("transitions", 6);
+      cx.count("cross_thread_keys", 1);
+      cx.nontrivial(fnv_str(&format!("{}|{}", i, who)));
+    }
+  }
+  cx.outcome("keys across threads");
+}
+
 fn sequences() -> Vec<(&'static str, Vec<u8>)> {
   let asc: Vec<u8> = (0..=255u8).collect();
   let desc: Vec<u8> = (0..=255u8).rev().collect();
@@ -361,6 +409,13 @@ pub fn spec() -> PropSpec {
         gen: |tier| if tier.thorough() { vec![json!({"domain": 4}), json!({"domain": 7}), json!({"domain": 0})] } else { vec![json!({"domain": 4})] },
         run: super::sr::run_c10,
         min_counts: &[("engine_agreements", 1)],
+      },
+      Check {
+        name: "keys-across-threads",
+        rule: "three keys created and their 256 values recorded on one thread; each key then evaluated, punctured (6 inputs) and re-checked in full on a fresh thread and on a thread that handled another key first (a key is a value: nothing about it may live in the thread)",
+        gen: |_| vec![json!({})],
+        run: run_threads,
+        min_counts: &[("cross_thread_keys", 6)],
       },
       Check {
         name: "complete-sequences",
